@@ -20,7 +20,8 @@ done
   emit() { if [ $first = 1 ]; then first=0; else echo ','; fi; printf '  "%s": "%s"' "$1" "$2"; }
   emit "$REPO/zz_verif_kit.go" "$B/gen/kit_raft.go"
   emit "$REPO/log/zz_verif_kit.go" "$B/gen/kit_log.go"
-  for f in $V/harness/raft/*.go; do case "$(basename $f)" in ${VERIF_EXCLUDE:-__none__}) continue;; esac; [ -e "$f" ] && emit "$REPO/zz_verif_$(basename $f)" "$f"; done
+  excluded() { local b=$1 p; local IFS='|'; for p in ${VERIF_EXCLUDE:-__none__}; do case "$b" in $p) return 0;; esac; done; return 1; }
+  for f in $V/harness/raft/*.go; do excluded "$(basename $f)" && continue; [ -e "$f" ] && emit "$REPO/zz_verif_$(basename $f)" "$f"; done
   for f in $V/harness/log/*.go; do [ -e "$f" ] && emit "$REPO/log/zz_verif_$(basename $f)" "$f"; done
   # optional extra overlay entries (mutants): files listed as "dst src" lines
   if [ -n "$VERIF_EXTRA_OVERLAY" ] && [ -e "$VERIF_EXTRA_OVERLAY" ]; then
